@@ -535,7 +535,9 @@ def _judge(res, g, rd, got, err, union, shape, numpy, MPilotError, tag=""):
             res.probe("loosely spelled type name rejected")
             return
         res.probe("loosely spelled type name accepted: judged like the real name")
-    valid = [v for v, m in zip(vals, union) if not m]
+    # (a cell that holds the declared missing value is missing data: the type checks are about the data)
+    mv0 = rd.get("missing")
+    valid = [v for v, m in zip(vals, union) if not m and not (mv0 is not None and v == v and float(v) == float(mv0))]
     # documented type checks (on the data as stored, i.e. at non-missing cells)
     expect_err = None
     if dt in ("Positive Float", "Positive Integer") and any(v < 0 for v in valid):
@@ -592,6 +594,11 @@ def _judge(res, g, rd, got, err, union, shape, numpy, MPilotError, tag=""):
         if dt == "Fuzzy" and v == v:
             exp_v = max(-1.0, min(1.0, v))
         is_missing = m or (mv is not None and float(exp_v) == float(mv))
+        if dt == "Fuzzy" and mv is not None and not m and v == v and (float(v) == float(mv)) != (float(exp_v) == float(mv)):
+            if float(v) == float(mv):
+                is_missing = True        # the stored value is the missing value (whatever clipping would make of it)
+            else:
+                continue                 # only the clipped value equals it: not settled by the statement
         if bool(mask[i]) != bool(is_missing):
             res.violate("C18.mask", "C18.mask %s %s" % ("cell-not-missing" if is_missing else "cell-wrongly-missing", label),
                         "cell %d of %s (value %r, written mask union %r, missing value %r): read mask %r"
